@@ -6,7 +6,7 @@ package main
 // Rv/Model/PipeLife.lean run by Rv/Drv/PipeLife.lean on the same schedule, and (b) concurrent
 // episodes (callers issuing Do/DoMulti with random cancellation, the connection killed or the pipe
 // closed at a random point of the server's command stream) judged by `!` oracle lines from the
-// statements of Rv.C04b. No wait decides an oracle by sleeping: every wait is for an observable
+// statements of Rv.C04.Life. No wait decides an oracle by sleeping: every wait is for an observable
 // event (a call's return, a command reaching the server, a counter of the pipe) under a generous
 // watchdog whose expiry is reported as a hang.
 
@@ -781,5 +781,5 @@ func runPipeLife(c *Ctx) {
 }
 
 func init() {
-	suites["pipelife"] = suite{rule: "the real pipe (_newPipe over the tag server) driven through (a) sequentialised random schedules of call / call with a done context / call with a deadline / server reply / cancel / connection kill / Close, every action followed by an event-driven wait for quiescence, compared line by line (state and per-call outcome classes after every action, final state/waits/latched error) with the interleaving model Rv/Model/PipeLife.lean run on the same schedule, and (b) concurrent episodes (2-5 callers x 1-3 Do/DoMulti calls with random cancellation before or during the call, held replies, and a kill / Close / server-side drop at a random point) judged by oracle lines from the statements of Rv.C04b: every call returned; with its own reply, a transport error, ErrClosing or its own context error; a done context at admission returns the context error and puts nothing on the wire; after the teardown the pipe is in state 4 with waits 0; non-trivial = every line", run: runPipeLife}
+	suites["pipelife"] = suite{rule: "the real pipe (_newPipe over the tag server) driven through (a) sequentialised random schedules of call / call with a done context / call with a deadline / server reply / cancel / connection kill / Close, every action followed by an event-driven wait for quiescence, compared line by line (state and per-call outcome classes after every action, final state/waits/latched error) with the interleaving model Rv/Model/PipeLife.lean run on the same schedule, and (b) concurrent episodes (2-5 callers x 1-3 Do/DoMulti calls with random cancellation before or during the call, held replies, and a kill / Close / server-side drop at a random point) judged by oracle lines from the statements of Rv.C04.Life: every call returned; with its own reply, a transport error, ErrClosing or its own context error; a done context at admission returns the context error and puts nothing on the wire; after the teardown the pipe is in state 4 with waits 0; non-trivial = every line", run: runPipeLife}
 }
